@@ -704,6 +704,11 @@ void from_int_one(char const *ename)
         }
         else
           VF_COUNT("outcome/from_int/absent");
+        // an integer that is no enumerator is an input the function cannot handle: it is reported through the empty
+        // optional, never through some enumerator (the exact value is C06's concern, presence is totality)
+        if (r.has_value() != (static_cast<i128>(v) >= 0 && static_cast<i128>(v) < size))
+          vf::violation(vf::st().entry + (r.has_value() ? "/enumerator-for-an-integer-outside-the-enum" : "/nothing-for-an-enumerator"),
+                        "invalid-result", "value " + s128(static_cast<i128>(v)) + " size " + s128(size));
       });
     }
     calls += end - c;
